@@ -3,7 +3,7 @@ import BeyondVerif.Props.C13Omm
 /-!
 C13: well-formedness predicates shared by the whole-message theorems for OEM and TDM (both encodings)
 and for the KVN encodings of OPM and OMM.  They describe the objects the writers can be given:
-non-empty texts (an empty text is not a value in either encoding), one of the ten frames, the six
+non-empty texts (an empty text is not a value in either encoding), a registered frame (Earth-centred or not), the six
 coordinates, the 21 covariance values, distinct epochs inside one ephemeris (the readers attach a
 covariance block to the point with the same epoch), at most nine participants on a path.
 -/
